@@ -526,6 +526,19 @@ _asn1f_compare_tags(arg_t *arg, asn1p_expr_t *a, asn1p_expr_t *b) {
 		return ret;
 	}
 
+	if(rb && b->meta_type == AMT_TYPEREF) {
+		/*
+		 * Resolve (b) right here: the generic swap below marks both
+		 * components, and a marked type reference (a) would not
+		 * give its tag away anymore.
+		 */
+		DEBUG(" %s is a type reference", b->Identifier);
+
+		b = asn1f_lookup_symbol(arg, b->rhs_pspecs, b->reference);
+		if(!b) return 0;	/* Already FATAL()'ed somewhere else */
+		return WITH_MODULE(b->module, _asn1f_compare_tags(arg, a, b));
+	}
+
 	if(rb && b->expr_type == ASN_CONSTR_CHOICE) {
 		return _asn1f_compare_tags(arg, b, a);
 	}
